@@ -150,10 +150,26 @@ class LoopModel:
         for e in seg.events:
             if e.kind == "guard" and e.a == T("variantof", T("try", R)) and e.b == "Break":
                 return "ERR", R
-        for e in seg.events:
-            if e.kind == "guard" and e.a == T("variantof", T("okval", R)):
-                return e.b, R
+            if e.kind == "guard" and e.a == T("variantof", R) and e.b == "Err":
+                return "ERR", R     # the Result is matched by hand instead of with `?`
+        for base in LoopModel.ok_bases(R):
+            for e in seg.events:
+                if e.kind == "guard" and e.a == T("variantof", base):
+                    return e.b, R
         return None, R
+
+    @staticmethod
+    def ok_bases(R):
+        """the Ok payload of a Driver call's Result, as reached through `?` or through a hand-written match"""
+        return [T("okval", R), T("field", T("variant", R, "Ok"), "0")]
+
+    @staticmethod
+    def ok_base(seg, R):
+        for base in LoopModel.ok_bases(R):
+            for e in seg.events:
+                if e.kind == "guard" and e.a == T("variantof", base):
+                    return base
+        return T("okval", R)
 
 
 # --------------------------------------------------------------------------
@@ -208,6 +224,43 @@ class Roles:
 
     def var0(self, l):
         return T("var", l, self.M.body.dbg.get(l, ""), 0)
+
+    def flag_view(self, atom):
+        """is `atom` the tablet flag (-> +1), or a scalar local assigned exactly once from the flag / its negation
+        (a copy taken earlier: -> +1 / -1)?  None otherwise"""
+        if atom == self.var0(self.flag):
+            return 1
+        if not (isinstance(atom, tuple) and atom and atom[0] == "var" and len(atom) > 1 and isinstance(atom[1], int)):
+            return None
+        body = self.M.body
+        l = atom[1]
+        pol = 1
+        for _ in range(4):
+            defs = body.defs.get(l, ())
+            if len(defs) != 1:
+                return None
+            blk, idx = defs[0][0], defs[0][1] if len(defs[0]) > 1 else None
+            st = None
+            try:
+                st = body.blocks[blk]["stmts"][idx]
+            except Exception:
+                return None
+            if st.get("k") != "assign" or st["lhs"]["p"]:
+                return None
+            rv = st["rv"]
+            if rv["k"] == "unop" and rv.get("op") == "Not":
+                pol = -pol
+                op = rv["a"]
+            elif rv["k"] == "use":
+                op = rv["op"]
+            else:
+                return None
+            if op["k"] not in ("copy", "move") or op["place"]["p"]:
+                return None
+            l = op["place"]["l"]
+            if l == self.flag:
+                return pol
+        return None
 
 
 class Trace:
